@@ -118,3 +118,149 @@ theorem negate_total_real {a : Angle ℝ} (ha : a.Inv) : T a.negate = T a + Real
   rw [add_whole_total_real ha T_new_one_one.2, T_new_one_one.1]
 
 end GeonumModel.Exact
+
+namespace GeonumModel.Exact
+open GeonumModel FloatLike FloatSpec Angle
+
+theorem lit_real : (zero : ℝ) = 0 ∧ (one : ℝ) = 1 ∧ (two : ℝ) = 2 ∧ (three : ℝ) = 3 ∧ (four : ℝ) = 4 := by
+  refine ⟨?_, ?_, ?_, ?_, ?_⟩
+  · exact val_zero (F := ℝ)
+  · exact val_one (F := ℝ)
+  · exact val_two (F := ℝ)
+  · exact val_three (F := ℝ)
+  · exact val_four (F := ℝ)
+
+theorem pi_real : (FloatLike.pi : ℝ) = Real.pi := rfl
+
+/-! the operations of the exact-arithmetic instance, as rewriting rules -/
+theorem r_add (a b : ℝ) : fadd a b = a + b := rfl
+theorem r_sub (a b : ℝ) : fsub a b = a - b := rfl
+theorem r_mul (a b : ℝ) : fmul a b = a * b := rfl
+theorem r_div (a b : ℝ) : fdiv a b = a / b := rfl
+theorem r_neg (a : ℝ) : fneg a = -a := rfl
+theorem r_abs (a : ℝ) : fabs a = |a| := rfl
+theorem r_max (a b : ℝ) : fmax a b = max a b := rfl
+theorem r_ceil (a : ℝ) : FloatLike.ceil a = ((⌈a⌉ : ℤ) : ℝ) := rfl
+theorem r_usize (a : ℝ) : toUsize a = ⌊a⌋₊ := rfl
+theorem r_lt (a b : ℝ) : flt a b = decide (a < b) := rfl
+theorem r_le (a b : ℝ) : fle a b = decide (a ≤ b) := rfl
+theorem r_eq (a b : ℝ) : feq a b = decide (a = b) := rfl
+
+/-- the normalised total in exact arithmetic: `p·π/d` shifted up by whole turns until non-negative -/
+theorem newTotal_real (p d : ℝ) :
+    ∃ n : ℕ, Angle.newTotal p d = p * Real.pi / d + (n : ℝ) * (2 * Real.pi) ∧ 0 ≤ Angle.newTotal p d ∧
+      Angle.newTotal p d ≤ |p * Real.pi / d| + 2 * Real.pi := by
+  have hpi := Real.pi_pos
+  set t : ℝ := p * Real.pi / d with ht
+  have hform : Angle.newTotal p d =
+      if t < 0 then max (t + ((⌈|t| / (4 * (Real.pi / 2))⌉ : ℤ) : ℝ) * 4 * (Real.pi / 2)) 0 else t := by
+    unfold Angle.newTotal
+    simp only [r_add, r_mul, r_div, r_abs, r_max, r_ceil, r_lt, pi_real, lit_real.1, lit_real.2.2.2.2, qp_real',
+      decide_eq_true_eq]
+    rfl
+  rw [hform]
+  by_cases h : t < 0
+  · rw [if_pos h]
+    have h2pi : (4:ℝ) * (Real.pi / 2) = 2 * Real.pi := by ring
+    rw [h2pi]
+    have hq0 : 0 ≤ |t| / (2 * Real.pi) := by positivity
+    have hn0 : (0:ℤ) ≤ ⌈|t| / (2 * Real.pi)⌉ := Int.ceil_nonneg hq0
+    obtain ⟨n, hn⟩ : ∃ n : ℕ, (n : ℤ) = ⌈|t| / (2 * Real.pi)⌉ := ⟨_, Int.toNat_of_nonneg hn0⟩
+    have hnr : (n : ℝ) = ((⌈|t| / (2 * Real.pi)⌉ : ℤ) : ℝ) := by exact_mod_cast congrArg (Int.cast (R := ℝ)) hn
+    rw [← hnr]
+    have hc1 : |t| / (2 * Real.pi) ≤ n := by rw [hnr]; exact Int.le_ceil _
+    have hc2 : (n : ℝ) < |t| / (2 * Real.pi) + 1 := by rw [hnr]; exact Int.ceil_lt_add_one _
+    have habs : |t| = -t := abs_of_neg h
+    have hc1' : |t| ≤ (n : ℝ) * (2 * Real.pi) := by rwa [div_le_iff₀ (by positivity)] at hc1
+    have hge : 0 ≤ t + (n : ℝ) * 4 * (Real.pi / 2) := by nlinarith
+    rw [max_eq_left hge]
+    refine ⟨n, by ring, hge, ?_⟩
+    have : (n : ℝ) * (2 * Real.pi) < |t| + 2 * Real.pi := by
+      have := mul_lt_mul_of_pos_right hc2 (show (0:ℝ) < 2 * Real.pi by positivity)
+      rw [add_mul, div_mul_cancel₀ _ (by positivity : (2 * Real.pi) ≠ 0), one_mul] at this
+      exact this
+    nlinarith
+  · rw [if_neg h]
+    push Not at h
+    exact ⟨0, by simp, h, by rw [abs_of_nonneg h]; linarith⟩
+
+/-- **what `Angle::new` denotes, in exact arithmetic**: the total is `p·π/d` up to whole turns and a snap slack below `1e-10`;
+    the result is canonical -/
+theorem new_total_real {p d : ℝ} (hb : |p * Real.pi / d| ≤ 2 ^ 42) :
+    (Angle.new p d).Inv ∧
+    ∃ (δ : ℝ) (m : ℤ), |δ| < 1 / 10 ^ 10 ∧ T (Angle.new p d) = p * Real.pi / d + δ + (m : ℝ) * (2 * Real.pi) := by
+  have hpi3 := Real.pi_gt_three; have hpi4 := Real.pi_lt_four
+  unfold Angle.new
+  by_cases hfast : (feq d (two : ℝ) && feq (FloatLike.fract p) (zero : ℝ)) = true
+  · rw [if_pos hfast]
+    refine ⟨inv_zero _, ?_⟩
+    rw [Bool.and_eq_true] at hfast
+    have hd2 : d = 2 := by
+      have := hfast.1; rw [lit_real.2.2.1, r_eq] at this; simpa using this
+    have hint : ∃ k : ℤ, p = k := by
+      have := (fract_spec (F := ℝ) (a := p) trivial).2
+      simp only [val_id] at this
+      apply this.mp
+      have h2 := hfast.2; rw [lit_real.1, r_eq] at h2; simpa using h2
+    obtain ⟨k, hk⟩ := hint
+    unfold Angle.newFast
+    simp only
+    by_cases hneg : flt p (zero : ℝ) = true
+    · rw [if_pos hneg]
+      have hp0 : p < 0 := by rw [lit_real.1, r_lt] at hneg; simpa using hneg
+      set j : ℤ := ⌈(-p + 3) / 4⌉ with hj
+      have hsum : fadd p (fmul (FloatLike.ceil (fdiv (fadd (fneg p) (three : ℝ)) (four : ℝ))) (four : ℝ)) = p + (j : ℝ) * 4 := by
+        simp only [r_add, r_mul, r_div, r_neg, r_ceil, lit_real.2.2.2.1, lit_real.2.2.2.2, hj]
+      have hjge : (-p + 3) / 4 ≤ j := Int.le_ceil _
+      have hnn : 0 ≤ p + (j : ℝ) * 4 := by linarith
+      have hval : p + (j : ℝ) * 4 = ((k + 4 * j : ℤ) : ℝ) := by rw [hk]; push_cast; ring
+      have hkz : 0 ≤ k + 4 * j := by
+        have : (0:ℝ) ≤ ((k + 4 * j : ℤ) : ℝ) := by rw [← hval]; exact hnn
+        exact_mod_cast this
+      have hbl : toUsize (fadd p (fmul (FloatLike.ceil (fdiv (fadd (fneg p) (three : ℝ)) (four : ℝ))) (four : ℝ))) = (k + 4 * j).toNat := by
+        rw [hsum, hval, r_usize, ← Int.floor_toNat, Int.floor_intCast]
+      rw [hbl]
+      refine ⟨0, j, by norm_num, ?_⟩
+      have hcast : (((k + 4 * j).toNat : ℕ) : ℝ) = (k : ℝ) + 4 * (j : ℝ) := by
+        have h2 : (((k + 4 * j).toNat : ℤ) : ℝ) = ((k + 4 * j : ℤ) : ℝ) := by rw [Int.toNat_of_nonneg hkz]
+        push_cast at h2 ⊢; linarith
+      show (((k + 4 * j).toNat : ℕ) : ℝ) * (Real.pi / 2) + (zero : ℝ) = _
+      rw [hcast, hd2, hk, lit_real.1]; ring
+    · rw [if_neg hneg]
+      have hp0 : 0 ≤ p := by
+        rw [lit_real.1, r_lt] at hneg
+        have : ¬ p < 0 := by simpa using hneg
+        exact not_lt.mp this
+      have hkz : 0 ≤ k := by
+        have : (0:ℝ) ≤ (k : ℝ) := by rw [← hk]; exact hp0
+        exact_mod_cast this
+      have hbl : toUsize p = k.toNat := by rw [hk, r_usize, ← Int.floor_toNat, Int.floor_intCast]
+      rw [hbl]
+      refine ⟨0, 0, by norm_num, ?_⟩
+      have hcast : ((k.toNat : ℕ) : ℝ) = (k : ℝ) := by
+        have h2 : ((k.toNat : ℤ) : ℝ) = (k : ℝ) := by rw [Int.toNat_of_nonneg hkz]
+        exact_mod_cast h2
+      show ((k.toNat : ℕ) : ℝ) * (Real.pi / 2) + (zero : ℝ) = _
+      rw [hcast, hd2, hk, lit_real.1]; push_cast; ring
+  · rw [if_neg hfast]
+    obtain ⟨n, hnt, hnt0, hntb⟩ := newTotal_real p d
+    have hbig : val (F := ℝ) (Angle.newTotal p d) ≤ 2 ^ 48 := by
+      show Angle.newTotal p d ≤ 2 ^ 48
+      have : (2:ℝ) ^ 42 + 2 * 4 ≤ 2 ^ 48 := by norm_num
+      linarith
+    have hcore := newCore_spec (F := ℝ) (Angle.newTotal p d) trivial hnt0 hbig
+    simp only at hcore
+    obtain ⟨hinv, hcase⟩ := hcore
+    have hnew : Angle.newGeneral p d = normalizeBoundaries ⟨fmod (Angle.newTotal p d) qp,
+        toUsize (FloatLike.round (fdiv (fsub (Angle.newTotal p d) (fmod (Angle.newTotal p d) qp)) qp))⟩ := rfl
+    rw [hnew]
+    refine ⟨hinv, ?_⟩
+    rw [qp_real, e10_real] at hcase
+    simp only [val_id] at hcase
+    rcases hcase with ⟨_, hT⟩ | ⟨_, hr0, hT⟩
+    · refine ⟨0, (n : ℤ), by norm_num, ?_⟩
+      unfold T; rw [hT, hnt]; push_cast; ring
+    · refine ⟨_, (n : ℤ), hT, ?_⟩
+      unfold T; rw [hr0, hnt]; push_cast; ring
+
+end GeonumModel.Exact
